@@ -245,6 +245,75 @@ def check_state(state: tuple) -> list[str]:
     return errs
 
 
+# ---- clone contract over assumption sets ---------------------------------------------------------------
+
+FACTS = ("positive", "negative", "nonnegative", "nonpositive", "real", "integer", "rational", "zero",
+    "nonzero", "finite", "commutative", "even", "complex", "imaginary")
+
+
+def assumption_sets() -> list[dict]:
+    out: list[dict] = [{}]
+    singles = [{f: v} for f in FACTS for v in (True, False)]
+    out += singles
+    for a, b in itertools.combinations(singles, 2):
+        if set(a) & set(b):
+            continue
+        out.append({**a, **b})
+    return out
+
+
+def clone_contract_cases(chunk: list[dict]) -> list[tuple[str, str]]:
+    from sympy.physics import units as U
+    from symplyphysics import Symbol, IndexedSymbol, clone_as_symbol, clone_as_function
+    from symplyphysics.core.symbols.symbols import clone_as_indexed
+    out = []
+    for asm in chunk:
+        tag = ",".join(f"{k}={v}" for k, v in sorted(asm.items())) or "none"
+        for kind, mk in (("Symbol", lambda: Symbol("w", U.energy, display_latex="\\omega_0", **asm)),
+            ("Indexed", lambda: IndexedSymbol("w", None, U.energy, display_latex="\\omega_0", **asm))):
+            try:
+                src = mk()
+            except Exception:
+                out.append((f"clone-assumptions:{kind}:{tag}", ""))  # inconsistent set: refused by sympy
+                continue
+            want = dict(src.assumptions0)
+            for cname, clone in (("clone_as_symbol", lambda: clone_as_symbol(src)),
+                ("clone_as_symbol+subscript", lambda: clone_as_symbol(src, subscript="2")),
+                ("clone_as_indexed", lambda: clone_as_indexed(src)),
+                ("clone_of_clone", lambda: clone_as_symbol(clone_as_symbol(src)))):
+                key = f"clone-assumptions:{kind}:{cname}:{tag}"
+                try:
+                    c = clone()
+                except Exception as ex:
+                    out.append((key, f"{cname} raised {type(ex).__name__}: {short(ex)}"))
+                    continue
+                got = dict(c.assumptions0)
+                msg = ""
+                if got != want:
+                    diff = {k: (want.get(k), got.get(k)) for k in set(want) | set(got) if want.get(k)
+                        != got.get(k)}
+                    msg = f"{cname} of a {kind} with {asm or 'no assumptions'} changes assumptions (source, clone): {diff}"
+                elif str(c.dimension) != str(src.dimension):
+                    msg = f"{cname} changes the dimension to {c.dimension}"
+                elif c == src:
+                    msg = f"{cname} returned an object equal to its source"
+                out.append((key, msg))
+            # explicit assumptions replace, never merge silently into something inconsistent
+            try:
+                c = clone_as_symbol(src, real=True)
+                ok = c.is_real is True and str(c.dimension) == str(src.dimension)
+                out.append((f"clone-assumptions:{kind}:explicit:{tag}", "" if ok else
+                    "clone_as_symbol(src, real=True) is not real or changed the dimension"))
+            except Exception:
+                out.append((f"clone-assumptions:{kind}:explicit:{tag}", ""))
+            f = clone_as_function(src, [sp.Symbol("t")])
+            ok = str(f.dimension) == str(src.dimension) and f.display_name == src.display_name and \
+                f.display_latex == src.display_latex
+            out.append((f"clone-assumptions:{kind}:function:{tag}", "" if ok else
+                f"clone_as_function changed dimension or names: {f.dimension}, {f.display_name}"))
+    return out
+
+
 _CROSSED: dict[str, int] = {}
 
 
@@ -275,20 +344,31 @@ def _work(chunk: list[tuple]) -> dict:
     return res
 
 
-def _pre_bump(n: int) -> None:
-    from symplyphysics import Symbol, Function, Quantity
-    for _ in range(n):
-        Symbol()
-        Function()
-        Quantity(1)
+def _bump_each(offset: int) -> None:
+    """bring every name counter to at least `offset`, each through its own public constructor"""
+    from symplyphysics import Symbol, Function, Quantity, CoordinateSystem
+    from symplyphysics.core.symbols import id_generator as G
+    for prefix, mk in (("SYM", Symbol), ("FUN", Function), ("QTY", lambda: Quantity(1))):
+        while G._ids.get(prefix, 0) < offset:
+            mk()
+    while G._ids.get("SYS", 0) < min(offset, 96):  # coordinate systems are slow to create
+        CoordinateSystem()
 
 
 def _work_with_offset(item: tuple) -> dict:
     offset, chunk = item
-    from symplyphysics.core.symbols import id_generator as G
-    cur = G._ids.get("FUN", 0)
-    if cur < offset:
-        _pre_bump(offset - cur)
+    if offset == "assumptions":
+        cases = clone_contract_cases(chunk)
+        res: dict[str, Any] = {"n": len(cases), "keys": [k for k, _ in cases], "outcomes": {},
+            "violations": [], "samples": [cases[len(cases) // 2][0]] if cases else [], "states":
+            len(cases), "transitions": len(cases), "traces": len(chunk)}
+        for k, v in cases:
+            res["outcomes"]["clone-ok" if not v else "clone-bad"] = res["outcomes"].get("clone-ok" if
+                not v else "clone-bad", 0) + 1
+            if v:
+                res["violations"].append((k, v, {"assumptions": k}))
+        return res
+    _bump_each(offset)
     return _work(chunk)
 
 
@@ -297,11 +377,13 @@ def main(run: Run) -> int:
     states = all_states(depth)
     states = rotate(states, run.seed * 101)
     # workers start from different counter levels so that digit boundaries are crossed by small
-    # states: FUN/QTY/SYM counters at 0, 6, 96, 996
-    offsets = [0, 6, 96, 996]
+    # states: every counter at 0, 6, 96, 996, 9996 (SYM starts at 243)
+    offsets = [0, 6, 96, 996, 9996]
     size = max(20, len(states) // 64)
     chunks = [states[i:i + size] for i in range(0, len(states), size)]
-    items = [(offsets[i % len(offsets)], c) for i, c in enumerate(chunks)]
+    items: list[tuple] = [(offsets[i % len(offsets)], c) for i, c in enumerate(chunks)]
+    asets = assumption_sets()
+    items += [("assumptions", asets[i:i + 40]) for i in range(0, len(asets), 40)]
     for r in pmap(_work_with_offset, items):
         n = r.pop("n")
         run.evaluations += n
@@ -312,7 +394,8 @@ def main(run: Run) -> int:
         rule=f"all multisets of <= {depth} creation / clone events over "
         f"{len(BASE_EVENTS)} base events and {len(CLONE_KINDS)} clone kinds (display names forced "
         "to collide on 'x'/'y'); canonical state = sorted object descriptors; every state re-created "
-        "on the live process and all invariants evaluated",
+        "on the live process and all invariants evaluated; plus the clone contract over all single "
+        "and pairwise assumption sets (14 facts x True/False) for Symbol and IndexedSymbol sources",
         exhaustive=True,
         assumptions=["creations commute and nothing is destroyed, so a state is the multiset of "
             "object descriptors", "printing = print_expression, code_str, latex_str; anonymous "
@@ -320,5 +403,8 @@ def main(run: Run) -> int:
 
 
 def replay(case: dict) -> list[str]:
+    if "assumptions" in case:
+        return [f"{k}: {v}" for k, v in clone_contract_cases(assumption_sets()) if v and k ==
+            case["assumptions"]]
     st = tuple(tuple(e) for e in case["state"])
     return check_state(st)
